@@ -16,13 +16,14 @@ import numpy as np
 
 from .. import models
 from ..core import RunResult, adigest, mix
+from ..driver import pristine_library_state
 from .hist_common import SAME, TAU, call_value, quiet, with_entropy
 
 NAME = "B9"
 PROPERTY = "C09"
 RUNS = {"quick": 400, "thorough": 12000}
 RUN_WALL_CAP = 300.0
-REQUIRED_PROBES = {"quick": ["lower_bound_obtained", "two_lower_bounds_different_entropy", "npa_obtained", "complex_predicate", "asymmetric_game", "needs_question_dependent_answers", "referee_dim_1", "method_repeated", "unequal_counts", "three_questions"], "thorough": ["lower_bound_obtained", "two_lower_bounds_different_entropy", "npa_obtained", "npa2_obtained", "complex_predicate", "asymmetric_game", "needs_question_dependent_answers", "referee_dim_1", "referee_dim_3", "method_repeated", "unequal_counts"]}
+REQUIRED_PROBES = {"quick": ["lower_bound_obtained", "two_lower_bounds_different_entropy", "npa_obtained", "complex_predicate", "asymmetric_game", "needs_question_dependent_answers", "referee_dim_1", "method_repeated", "unequal_counts", "three_questions", "two_objects_same_shape"], "thorough": ["lower_bound_obtained", "two_lower_bounds_different_entropy", "npa_obtained", "npa2_obtained", "complex_predicate", "asymmetric_game", "needs_question_dependent_answers", "referee_dim_1", "referee_dim_3", "method_repeated", "unequal_counts"]}
 COMPONENTS = {"real": ["toqito.nonlocal_games.ExtendedNonlocalGame (unentangled_value, quantum_value_lower_bound, commuting_measurement_value_upper_bound, nonsignaling_value)", "toqito.helper.npa_constraints (referee_dim blocks)", "toqito.rand.random_unitary", "cvxpy + SCS/Clarabel"], "stub": ["OS entropy for the see-saw start (numpy.random.bit_generator.randbits -> choice source)"]}
 RULE = ("one run = one extended game (referee dimension 1..3, 1..2 (thorough 3) answers and questions per player, unequal counts, PSD predicate operators of norm <= 1, real and complex, "
         "not symmetric under player exchange, two thirds with referee dimension = Bob's answer count so that the see-saw runs) and 3..6 value-method calls in seeded order, several entropy values per game; "
@@ -52,7 +53,7 @@ def rand_psd(rng, r, cplx, rank=None):
     return m / n if n > 0 else m
 
 
-def draw_game(st, tier):
+def draw_game(st, tier, like=None):
     mx = 3 if tier == "thorough" else 2
     fam = st.weighted([("seesaw", 4), ("free", 1), ("classical_ref", 1)])
     a_out, b_out = st.int_range(1, mx), st.int_range(1, mx)
@@ -67,6 +68,8 @@ def draw_game(st, tier):
     else:
         r = st.int_range(1, 3)
     cplx = bool(st.draw(2)) and r > 1
+    if like is not None:
+        r, (a_out, b_out), (a_in, b_in), cplx, fam = like["referee_dim"], like["answers"], like["questions"], like["complex"], like["family"]
     rng = st.nprng()
     kind = st.weighted([("random_psd", 3), ("indicator", 3), ("projector", 3), ("scaled", 2)])
     dtype = complex if cplx else float
@@ -157,6 +160,13 @@ def run(cs, tier, run_index):
 
     game, caller = build()
     shadow = [prob.copy(), pred.copy()]
+    # an interloper: a second game of the same shape and different contents whose methods are called in
+    # between (anything kept between calls and keyed too coarsely would leak into the main object's values)
+    interloper = None
+    if cs.s("config").draw(3) == 2 or run_index % 8 == 7:
+        p2, v2, _ = draw_game(cs.s("game:2"), tier, like=meta)
+        interloper = E.ExtendedNonlocalGame(p2, v2)
+        res.probe("two_objects_same_shape")
     un_model, un_const = unentangled_model(prob, pred)
     if un_model > un_const + 1e-6:
         res.probe("needs_question_dependent_answers")
@@ -187,6 +197,9 @@ def run(cs, tier, run_index):
     for k, op in enumerate(ops):
         key = json.dumps(op, sort_keys=True)
         ent = op.get("entropy", 0)
+        if interloper is not None and st.draw(2):
+            with with_entropy(ent + 17):
+                call_value(op_fn(interloper, op), res, op["op"] + "(other object)")
         with with_entropy(ent):
             out = call_value(op_fn(game, op), res, op["op"])
         names.append(op["op"])
@@ -202,9 +215,10 @@ def run(cs, tier, run_index):
             pristine[key] = v
         else:
             if key not in pristine:
-                g2, _ = build()
-                with with_entropy(ent):
-                    o2 = call_value(op_fn(g2, op), res, op["op"] + "(pristine)")
+                with pristine_library_state():
+                    g2, _ = build()
+                    with with_entropy(ent):
+                        o2 = call_value(op_fn(g2, op), res, op["op"] + "(pristine)")
                 pristine[key] = o2[1] if o2[0] == "ok" else None
             if pristine[key] is not None:
                 res.checks_sim += 1
